@@ -16,6 +16,7 @@ import itertools
 
 from mc import alpha
 from mc.env import guard
+from mc.state import seq
 from mc.state import track_extras, standard_track
 from mc.explore import bfs
 from tracklib.core.track import Track
@@ -60,6 +61,8 @@ OBLIGATIONS = {
     "pop_obs": "popObs(i) returned the designated observation and left the others",
     "slice_operator": "track[i:j] compared with the designated observations",
     "span_given_as_a_track": "extractSpanTime(track) (span between the first and last timestamp of another track)",
+    "sort_after_a_refused_sort": "a well-formed track sorted right after sort / sortRadix was called on a track holding an ill-formed instant (second 60, month 13 ...)",
+    "result_sequence_is_its_own": "a result of each sequence operator lost its first observation and gained a new one, and the source still held the same observations in the same order",
     "result_table_is_its_own": "a result of each sequence operator got one more feature and the source still listed and read the same",
     "insert_into_size_1": "chronological insertion into a track of 1 observation",
     "insert_into_size_2": "chronological insertion into a track of 2 observations",
@@ -695,7 +698,7 @@ def check_op(root, track, S, names, op, case, ctx):
         for c, nm in enumerate(names):
             st, vals = guard(res.getAnalyticalFeature, nm)
             want = [r[4][_col(track, nm, c)] for r in exp]
-            if st != "ok" or not isinstance(vals, list) or [float(v) for v in vals] != want:
+            if st != "ok" or seq(vals) is None or [float(v) for v in seq(vals)] != want:
                 ctx.violation(key + "feature-values-not-carried-over", case, {"feature": nm, "got": vals, "expected": want})
                 return
     elif k == "add" and partner is not None:
@@ -776,10 +779,27 @@ def check_table(root, track, names, kind, case, ctx):
         return
     for nm in names:
         st, vals = guard(src.getAnalyticalFeature, nm)
-        if st != "ok" or not isinstance(vals, list) or [float(v) for v in vals] != before[nm]:
+        if st != "ok" or seq(vals) is None or [float(v) for v in seq(vals)] != before[nm]:
             ctx.violation(key + "values-read-from-the-source-changed", case, {"feature": nm, "before": before[nm], "after": vals})
             return
     ctx.oblige("result_table_is_its_own")
+    # ... and the result is a track of its own: removing its first observation and inserting a new one (operations of this very
+    # statement, applied to the RESULT) leaves the source with the observations it had, in the order it had them
+    tags = [int(o.position.getZ()) for o in src.getObsList()]
+    if not tags:
+        return
+    key = key.replace("result-gets-a-new-feature", "result-loses-and-gains-an-observation")
+    st, r = guard(lambda: (res.removeFirstObs() if res.size() else None,
+                           res.addObs(mk_obs(variant, max(tags + [99]) + 1, root["rid"], s_unit(variant, snap(src)[-1]) + 1,
+                                             len(res.getListAnalyticalFeatures())))))
+    if st == "hang":
+        ctx.violation(key + "does-not-return", case, r)
+        return
+    st, now = guard(lambda: [int(o.position.getZ()) for o in src.getObsList()])
+    if st != "ok" or now != tags:
+        ctx.violation(key + "observations-of-the-source-changed", case, {"before": tags, "after": now})
+        return
+    ctx.oblige("result_sequence_is_its_own")
 
 
 def _col(track, nm, default):
@@ -814,8 +834,31 @@ CALENDAR = [(1970, 1, 1, 0, 0, 0), (1999, 12, 31, 23, 59, 59), (2000, 1, 1, 0, 0
             (2038, 1, 19, 3, 14, 8), (2069, 12, 31, 23, 59, 59), (2070, 1, 1, 0, 0, 0), (2099, 12, 31, 23, 59, 59)]
 
 
-def check_calendar_sort(variant, idx, method, ctx):
+# ... and the same after a sort that was refused: a track holding an ill-formed instant (second 60, minute 60, month 13, a
+# fractional second field) is outside the statement - sort / sortRadix may raise on it or do anything with IT - but the next,
+# well-formed track sorted in the same process must come out as usual
+ILL_FIELDS = {"second-60": (2020, 2, 29, 23, 59, 60), "minute-60": (2020, 2, 29, 23, 60, 0), "month-13": (2020, 13, 1, 0, 0, 0),
+              "hour-24": (2020, 2, 29, 24, 0, 0), "day-0": (2020, 3, 0, 0, 0, 0)}
+
+
+def _refused_sort(variant, ill, pos, method):
+    t = Track()
+    for k in range(3):
+        x, y = alpha.xy(variant, float(k), 1.0)
+        if k == pos:
+            ts = ObsTime(*ILL_FIELDS[ill])
+        else:
+            ts = alpha.obstime(calendar.timegm((2020, 2, 29, 23, 59, 30 - 10 * k, 0, 0, 0)))
+        t.addObs(Obs(ENUCoords(x, y, 0.0), ts))
+    guard(t.sort if method == "sort" else t.sortRadix)
+
+
+def check_calendar_sort(variant, idx, method, ctx, refused=None):
     case = {"kind": "calendar", "variant": variant, "idx": list(idx), "method": method}
+    if refused:
+        case["refused"] = list(refused)
+        _refused_sort(variant, refused[0], refused[1], method)
+        ctx.oblige("sort_after_a_refused_sort")
     t = Track()
     for k, i in enumerate(idx):
         x, y = alpha.xy(variant, float(k), float(i))
@@ -829,7 +872,7 @@ def check_calendar_sort(variant, idx, method, ctx):
     name = "sort" if method == "sort" else "sortRadix"
     years = sorted(set(CALENDAR[i][0] for i in idx))
     cls = "calendar/" + ("years-from-2070" if years[-1] >= 2070 else ("across-2000" if years[0] < 2000 <= years[-1] else "other"))
-    key = "%s/%s/" % (name, cls)
+    key = "%s/%s/" % (name, cls + ("/after-a-refused-sort" if refused else ""))
     if st != "ok":
         ctx.violation(key + ("does-not-return" if st == "hang" else "raises"), case, r)
         return
@@ -922,7 +965,13 @@ def run_shard(shard, ctx):
                 check_calendar_sort(v, idx, "sort", ctx)
                 if n == 2 or len(set(idx)) == 3:
                     check_calendar_sort(v, idx, "sortradix", ctx)
-        ctx.sample({"calendar_instants": [list(c) for c in CALENDAR], "tuples": "all of 2..3 instants", "methods": ["sort", "sortRadix"]})
+        for ill in sorted(ILL_FIELDS):
+            for pos in range(3):
+                for idx in itertools.product(range(6), repeat=2):          # instants before 2070 (see known findings)
+                    for method in ("sort", "sortradix"):
+                        check_calendar_sort(v, idx, method, ctx, refused=(ill, pos))
+        ctx.sample({"calendar_instants": [list(c) for c in CALENDAR], "tuples": "all of 2..3 instants", "methods": ["sort", "sortRadix"],
+                    "refused_first": sorted(ILL_FIELDS)})
         return
     for root in shard["roots"]:
         explore_root(root, ctx)
@@ -934,7 +983,7 @@ def run_shard(shard, ctx):
 
 def replay(case, ctx):
     if case.get("kind") == "calendar":
-        return check_calendar_sort(case["variant"], tuple(case["idx"]), case["method"], ctx)
+        return check_calendar_sort(case["variant"], tuple(case["idx"]), case["method"], ctx, refused=case.get("refused"))
     root = dict(case["root"])
     root["depth"] = 0
     mk, ap = make_root(root), apply_event_of(root)
